@@ -161,6 +161,12 @@ theorem inv_two_sided {n : Nat} (pick : Gauss.Pick n n K) (hpick : Gauss.PickOK 
 /-- the pivot search of the source is admissible, for any magnitude function and comparison -/
 theorem source_pivot_search_admissible {n : Nat} {β : Type} (mag : K → β) (ge : β → β → Bool) (z : β) :
     Gauss.PickOK (Gauss.pickMax (n := n) (c := n) mag ge z) := Gauss.pickMax_ok mag ge z
+/-- **every non-singular matrix is inverted** by the code's pivot search (largest magnitude among unused
+rows × unused columns): no spurious "singular" report, and the result is the two-sided inverse -/
+theorem nonsingular_inverted {n : Nat} {β : Type} (mag : K → β) (ge : β → β → Bool) (z : β) (hm : Gauss.MagSpec mag ge z)
+    (m : Mat n n K) (hdet : (toM m).det ≠ 0) :
+    ∃ x, Gauss.inv (Gauss.pickMax mag ge z) m = .ok x ∧ toM x * toM m = 1 ∧ toM m * toM x = 1 :=
+  Gauss.inv_complete mag ge z hm m hdet
 /-- singular matrices are reported, never inverted -/
 theorem singular_reported {n : Nat} (pick : Gauss.Pick n n K) (hpick : Gauss.PickOK pick) (m : Mat n n K)
     (hdet : (toM m).det = 0) : ∃ e, Gauss.inv pick m = .error e := Gauss.inv_singular pick hpick m hdet
